@@ -37,6 +37,17 @@ type Item struct {
 	// optionally overrides the rendered expression (C13).
 	Tok  int    `json:"tok,omitempty"`
 	Expr string `json:"expr,omitempty"`
+	// ExprImports lists the packages Expr mentions (by qualified identifier).
+	ExprImports []int `json:"exprimports,omitempty"`
+	// ExprClass is the generator's classification of Expr: "" or "safe"
+	// (documented form: must be accepted), "unsafe" (would call a function or
+	// method or receive from a channel), "inaccessible" (mentions identifiers
+	// the injector's package cannot access), "either" (harmless but outside the
+	// documented list: either verdict).
+	ExprClass string `json:"exprclass,omitempty"`
+	// NoRef suppresses the home-package reference variable (the expression is
+	// not valid at package level, e.g. it mentions an injector parameter).
+	NoRef bool `json:"noref,omitempty"`
 }
 
 // Ref is an argument of wire.Build / wire.NewSet: an item, a named set, or an
@@ -106,6 +117,11 @@ type Spec struct {
 	// JointSets renders the set variables of each package in one multi-name
 	// var spec: var A, B = wire.NewSet(...), wire.NewSet(...).
 	JointSets bool `json:"jointsets,omitempty"`
+	// PkgExtra is free-form source (declarations only, no package clause or
+	// imports) added to a package as file extra_decls.go; PkgExtraImports lists
+	// import lines it needs.
+	PkgExtra        map[int]string   `json:"pkgextra,omitempty"`
+	PkgExtraImports map[int][]string `json:"pkgextraimports,omitempty"`
 	// Extra is free-form source appended to the root package (C14/C15 use it).
 	Extra string `json:"extra,omitempty"`
 	// name is the program's directory below progs/, set when rendering.
